@@ -407,6 +407,55 @@ func init() {
 			{Name: "c15-twin", Overlay: c15Ov, Pkg: "ast", Entry: "VerifC15Tokens", Twin: true,
 				Args: func(tier string, l *Loaded) [][]int64 { return [][]int64{{0, 1}} }},
 		}}
+	properties["C17"] = &PropertySpec{ID: "C17",
+		Rule:        "8 programs (find/replace, flat captures, named loops nested to depth 2, zero matches, multi-command) x ASCII texts of length 0..T (quick 2, thorough 3) over ALL 128 values incl. quotes, backslashes and control characters: the real Json/FormattedJson/MarshalJSON code renders through the abstract encoding/json codec; both renderings are parsed by the harness' JSON parser, compared as documents and against the in-memory matches field by field (keys exactly as documented, replacement iff replace, nested variables)",
+		Assumptions: []string{"encoding/json is replaced by a type-directed codec stub honouring the json.Marshaler contract (calls the repository's MarshalJSON methods); byte-level escaping, invalid UTF-8 and non-ASCII handling of the real encoder are outside the claim (exercised only when a counterexample is replayed natively)", "ASCII texts"},
+		Groups: []JobGroup{
+			{Name: "c17", Overlay: libOverlay("C17/c17.go"), Pkg: "libvore", Entry: "VerifC17",
+				Args: func(tier string, l *Loaded) [][]int64 {
+					return seqArgs(countOf(l, "libvore", "VerifC17Count"), tOf(tier, 2, 3), 0)
+				}},
+			{Name: "c17-twin", Overlay: libOverlay("C17/c17.go"), Pkg: "libvore", Entry: "VerifC17", Twin: true,
+				Args: func(tier string, l *Loaded) [][]int64 { return [][]int64{{0, 1, 1}} }},
+		}}
+	properties["C18"] = &PropertySpec{ID: "C18",
+		Rule:        "the real main() under the flag/exit/stdout/file-system model: programs {-com find, -com replace, -com that fails to compile, -src file, neither, both} x -files {one file, glob matching two, glob matching none, absent} x -replace-mode {absent, NEW, NOTHING, OVERWRITE, unknown} x symbolic booleans -json, -formatted-json, -no-output, -json-file given, -formatted-json-file given x file content of 1..2 symbolic printable bytes; exit status, stdout (exactly one JSON document equal to the library result), JSON files, per-mode file effects, invalid invocations change nothing",
+		Assumptions: []string{"argv parsing by the flag package, process exit plumbing and stdout buffering are modelled (flag values are supplied, os.Exit/log.Fatal recorded, fmt.Print* captured); the built binary is executed only when a counterexample is replayed", "-debug, -filenames and -profile are not explored"},
+		Groups: []JobGroup{
+			{Name: "c18", Overlay: map[string][]string{"main": {"common/jsonparse.go", "C18/c18.go"}}, Pkg: "main", Entry: "VerifC18",
+				Args: func(tier string, l *Loaded) [][]int64 {
+					var out [][]int64
+					for p := int64(0); p < 6; p++ {
+						for f := int64(0); f < 4; f++ {
+							for md := int64(0); md < 5; md++ {
+								out = append(out, []int64{p, f, md, 0})
+							}
+						}
+					}
+					return out
+				}},
+			{Name: "c18-twin", Overlay: map[string][]string{"main": {"common/jsonparse.go", "C18/c18.go"}}, Pkg: "main", Entry: "VerifC18", Twin: true,
+				Args: func(tier string, l *Loaded) [][]int64 { return [][]int64{{0, 0, 0, 1}} }},
+		}}
+	properties["C19"] = &PropertySpec{ID: "C19",
+		Rule:        "footprint / lockset analysis over every explored path of (a) Compile on 8 sources (with and without regex groups, global patterns, transforms, named loops) followed by 0..1 (thorough 2) arbitrary printable bytes and (b) Run of the 8 compiled programs on ASCII texts of length 0..T (quick 2, thorough 3) with the shared compiled program frozen: no write into memory reachable from the shared program, and every package-level variable of the repository that is written has one common mutex held at all of its accesses; libvore starts no goroutines, so empty write footprints make every interleaving of any number of calls equivalent to a sequential order",
+		Assumptions: []string{"math/rand's global source is synchronised by the standard library (stub contract)", "the Go memory model below whole loads/stores and races inside the runtime are outside the claim", "counterexamples are confirmed natively by hammering the API from 8 goroutines under the race detector"},
+		Groups: []JobGroup{
+			{Name: "c19-compile", Overlay: libOverlay("C19/c19.go"), Pkg: "libvore", Entry: "VerifC19Compile", Race: true,
+				Args: func(tier string, l *Loaded) [][]int64 {
+					n := countOf(l, "libvore", "VerifC19Count")
+					out := seqArgs(n, 0)
+					out = append(out, seqArgs(n, 1)...)
+					if tier == "thorough" {
+						out = append(out, seqArgs(n, 2)...)
+					}
+					return out
+				}},
+			{Name: "c19-run", Overlay: libOverlay("C19/c19.go"), Pkg: "libvore", Entry: "VerifC19Run", Race: true,
+				Args: func(tier string, l *Loaded) [][]int64 {
+					return seqArgs(countOf(l, "libvore", "VerifC19Count"), tOf(tier, 2, 3))
+				}},
+		}}
 	properties["T00"] = &PropertySpec{ID: "T00", Groups: []JobGroup{{
 		Name: "toy2", Overlay: map[string][]string{"libvore": {"toy/toy2.go"}}, Pkg: "libvore", Entry: "VerifToy2",
 		Args: func(tier string, l *Loaded) [][]int64 { return [][]int64{{2}, {3}} },
